@@ -62,12 +62,15 @@ class MemGate:
         self._with_ledger(lambda led: (None, [e for e in led if e.get("tok") != tok]))
 
 
+INCLUDE_UNVALIDATED = False
+
+
 def select(prop, tier, only, seed):
     hs = []
     for h in registry.harnesses(prop):
         if only and only not in h["name"]:
             continue
-        if h.get("twin") or h["tier"] == "quick" or (tier == "thorough" and h["tier"] == "thorough") or only:
+        if h.get("twin") or h["tier"] == "quick" or (tier == "thorough" and (h["tier"] == "thorough" or (INCLUDE_UNVALIDATED and h["tier"] == "unvalidated"))) or only:
             hs.append(h)
     # seed-rotated quick members: groups with "rotate" key take one member by seed in quick tier
     if tier == "quick" and not only:
@@ -423,8 +426,11 @@ def main():
     ap.add_argument("--no-replay", action="store_true")
     ap.add_argument("--list", action="store_true")
     ap.add_argument("--evidence-dir", help="write evidence/replays elsewhere (development runs against patched copies)")
+    ap.add_argument("--include-unvalidated", action="store_true", help="development: with --tier thorough also run harnesses that have no recorded successful run yet")
     a = ap.parse_args()
     seed = int(os.environ.get("VERIF_SEED", "0") or 0)
+    global INCLUDE_UNVALIDATED
+    INCLUDE_UNVALIDATED = a.include_unvalidated
     if a.list:
         for h in registry.harnesses(a.prop):
             print(h["tier"], h["name"])
